@@ -329,3 +329,23 @@ def rule_reg_read_mode(db: ProgramDB) -> List[Instance]:
     if n == 0:
         raise AnalysisError("no Variable construction for a @symbol class found in predicate.py")
     return out
+
+
+def rule_reg_after_init(db: ProgramDB) -> List[Instance]:
+    """An object counts as an instance once its construction succeeded.  Registration in __new__ happens before the
+    class's __init__ runs, so a constructor that raises leaves a registered, half-built ghost."""
+    out = []
+    sym = db.fn("predicate:symbol")
+    hyb = sym.nested.get("hybrid_new")
+    writer = db.fn("predicate:instantiate_class_and_update_cache")
+    # is the writer called from the function installed as __new__?
+    installs_new = any(isinstance(n, ast.Assign) and any(isinstance(t, ast.Attribute) and t.attr == "__new__" for t in n.targets)
+                       and isinstance(n.value, ast.Name) and n.value.id == hyb.name for n in own_nodes(sym.node))
+    calls_writer = any(isinstance(resolve_call_target(db, hyb, c), FuncInfo) and
+                       resolve_call_target(db, hyb, c).qualname == writer.qualname for c in own_calls(hyb))
+    in_new = installs_new and calls_writer
+    out.append(inst("REG-AFTER-INIT", VIOLATION if in_new else HOLDS, hyb, "hybrid_new[registration before __init__]",
+                    "the instance is registered inside __new__, i.e. before the class's own __init__ has run: when __init__ raises "
+                    "(invalid arguments) the half-built object stays in the registry and domain-less variables range over it"
+                    if in_new else "registration does not happen in __new__"))
+    return out
